@@ -233,6 +233,32 @@ def catalogue(big=False):
                                     call("MID", binds={"x": split(ref("DATA", "xs")), "skip": split(ref("FLAGS", "skips"))}, mode="array")],
                                    {})], "TOP", {}))
 
+    # 8g". the same with outputs handed up through both pipelines
+    P.append(program("dis_split_flag_sub_out", [],
+                     [stage("FLAGS", "", "bool[] skips", {"skips": const([True, False])}),
+                      stage("DATA", "", "int[] xs", {"xs": const([10, 20])}), S_echo("WORK")],
+                     [pipeline("INNER", "int x", "int y",
+                               [call("WORK", binds={"x": self_("x")})], {"y": ref("WORK", "y")}),
+                      pipeline("MID", "int x, bool skip", "int y",
+                               [call("INNER", binds={"x": self_("x")}, dis=self_("skip"))], {"y": ref("INNER", "y")}),
+                      pipeline("TOP", "", "int[] o",
+                               [call("FLAGS"), call("DATA"),
+                                call("MID", binds={"x": split(ref("DATA", "xs")), "skip": split(ref("FLAGS", "skips"))}, mode="array")],
+                               {"o": ref("MID", "y")})], "TOP", {}))
+
+    P.append(program("dis_split_flag_const_out", [],
+                     [stage("FLAGS", "", "bool[] skips", {"skips": const([True, False])}),
+                      stage("DATA", "", "int[] xs", {"xs": const([10, 20])}), S_echo("WORK"), S_echo("K")],
+                     [pipeline("INNER", "int x", "int y, int k",
+                               [call("WORK", binds={"x": self_("x")}),
+                                call("K", binds={"x": lit(5)})], {"y": ref("WORK", "y"), "k": ref("K", "y")}),
+                      pipeline("MID", "int x, bool skip", "int y, int k",
+                               [call("INNER", binds={"x": self_("x")}, dis=self_("skip"))], {"y": ref("INNER", "y"), "k": ref("INNER", "k")}),
+                      pipeline("TOP", "", "int[] o, int[] k",
+                               [call("FLAGS"), call("DATA"),
+                                call("MID", binds={"x": split(ref("DATA", "xs")), "skip": split(ref("FLAGS", "skips"))}, mode="array")],
+                               {"o": ref("MID", "y"), "k": ref("MID", "k")})], "TOP", {}))
+
     # 8h. the same, the mapped pipeline returning the output of the conditionally disabled call
     P.append(program("dis_split_flag_out", [],
                      [stage("FLAGS", "", "bool[] skips", {"skips": const([True, False])}),
@@ -579,6 +605,27 @@ def catalogue(big=False):
 def INST_ARR():
     """array output whose two elements depend on the stage's input n: [n*10, n*10+1]"""
     return {"k": "arr2", "src": "n"}
+
+
+def mixed_static_dynamic_flags():
+    """a mapped pipeline whose data is a literal array and whose per-element disabling flags are a
+    run-time array, with a stage consuming the results: mishandled by the runtime (recorded
+    finding of C03); kept out of catalogue() like nested_nonuniform()"""
+    P = []
+    # 8g"'. the data a literal array, the flags a run-time array, and a stage consuming the results
+    P.append(program("dis_split_flag_lit_consumer", [],
+                     [stage("FLAGS", "", "bool[] skips", {"skips": const([False, True, False])}),
+                      S_echo("WORK"), S_echo("ALL", "int[]")],
+                     [pipeline("INNER", "int x, bool skip", "int y",
+                               [call("WORK", binds={"x": self_("x")}, dis=self_("skip"))],
+                               {"y": ref("WORK", "y")}),
+                      pipeline("TOP", "", "int[] o",
+                               [call("FLAGS"),
+                                call("INNER", binds={"x": split(lit([1, 2, 3])), "skip": split(ref("FLAGS", "skips"))}, mode="array"),
+                                call("ALL", binds={"x": ref("INNER", "y")})],
+                               {"o": ref("ALL", "y")})], "TOP", {}))
+
+    return P
 
 
 def nested_nonuniform():
